@@ -131,6 +131,8 @@ def _recycle(nd, kind, quota, want):
             else:
                 r = w.w_try_recycle(x)          # leaves only when its results were consumed
                 recycled += 1
+                if want:
+                    return False                # reachability twin: a worker was recycled
         elif e == 2:
             w.rh()
         elif e == 3:
@@ -156,6 +158,8 @@ def _recycle(nd, kind, quota, want):
                         return fail('C09:held-up:consumed-results-not-credited:' + kind)
                     w.w_try_recycle(x)
                     recycled += 1
+                    if want:
+                        return False
             elif x.exitcode is None and x.state == 'idle' and p._inqueue.q:
                 w.w_take(x)
             elif x.exitcode is None and x.state == 'busy':
